@@ -78,8 +78,7 @@ pub fn eval_mem(a: &[&str]) -> Option<String> {
     let mut reader = match b.build(Box::new(mem)) {
         Ok(r) => r,
         Err(e) => {
-            let s = e.to_string();
-            return Some(format!("ERR build {}", build_err_tag(&s)));
+            return Some(format!("ERR build {}", build_err_tag_typed(&e)));
         }
     };
     let mut scs = reader.create_zero_scs();
@@ -116,6 +115,21 @@ fn quoted_site(stderr: &str) -> Option<String> {
         }
     }
     None
+}
+
+/// the builder's error by its VARIANT and fields (in-process cases), not by the wording of its message
+pub fn build_err_tag_typed(e: &site::reader::builder::Error) -> String {
+    use sfs_core::spectrum::ProjectionError as P;
+    use site::reader::builder::Error as E;
+    match e {
+        E::EmptySamplesMap => "empty".into(),
+        E::UnknownSample { sample } => format!("unknown {}", sample.trim()),
+        E::Projection(P::UnequalDimensions { .. }) => "proj-dims".into(),
+        E::Projection(P::InvalidProjection { dimension, .. }) => format!("proj-invalid {dimension}"),
+        E::Projection(P::Zero) => "proj-zero".into(),
+        E::Projection(P::Empty) => "proj-empty".into(),
+        other => build_err_tag(&other.to_string()),
+    }
 }
 
 pub fn build_err_tag(s: &str) -> String {
@@ -361,7 +375,10 @@ pub fn eval_mass(ctx: &Ctx, a: &[&str]) -> Option<String> {
     let header = lines.next().unwrap_or("").to_string();
     let mass: f64 = lines.next().unwrap_or("").split_whitespace().filter_map(|t| t.parse::<f64>().ok()).sum();
     // the summary's first number is the number of skipped sites (no summary line: none skipped)
-    let skipped: String = match o.stderr.lines().find(|l| l.to_ascii_lowercase().contains("skip") && !l.contains("Skipping sample")) {
+    // (the summary line — "Skipped K/N sites …" — rather than the per-site messages "Skipping site …" that precede it; a wording that
+    //  is not known falls back to the LAST line that mentions skipping)
+    let summary_line = o.stderr.lines().find(|l| l.contains("Skipped ")).or_else(|| o.stderr.lines().filter(|l| l.to_ascii_lowercase().contains("skip") && !l.contains("Skipping s")).last());
+    let skipped: String = match summary_line {
         Some(l) => { let i = l.to_ascii_lowercase().find("skip").unwrap_or(0); l[i..].chars().skip_while(|c| !c.is_ascii_digit()).take_while(|c| c.is_ascii_digit()).collect() }
         None => "0".into(),
     };
